@@ -20,6 +20,8 @@ func runC11(t *kernel.Tape, opt core.Opts) *core.Outcome {
 		Streams: t.PlanBool(50), Handlers: true, Yields: 2, Parallelism: t.PlanBool(60)}
 	p := Generate(t, g)
 	maybeAnyTypes(t, p)
+	twins := t.PlanBool(20) && decorateTwins(t, p) // two nodes built from one Lambda value
+	_ = twins
 	in := M{"in": fmt.Sprintf("x%d", t.Plan(3))}
 	calls := []*Call{
 		{Tag: "r0", Paradigm: t.Plan(4), In: in, InCut: t.Plan(3), InPipe: t.PlanBool(50), StopAfter: -1},
@@ -414,7 +416,7 @@ func runC10(t *kernel.Tape, opt core.Opts) *core.Outcome {
 func init() {
 	core.Register(&core.Profile{
 		RaceQuick: 200, RaceThorough: 3000, ID: "C11", Engine: "graphsim", Quick: 2000, Thorough: 50000, ThoroughSeeds: 3, Run: runC11,
-		Rule: "each run draws a stateful plan (all modes; value and stream pre/post handlers; node bodies calling ProcessState, also from stateless nested graphs; stateful nested graphs), every state access does read-yield-write inside the framework's lock and passes a mutual-exclusion monitor; two calls on the same compiled object; oracle: monitor never sees two tasks inside, final counter = number of invocations, one fresh state per run and per stateful nested execution, pre < node < post, values equal the reference model; Pregel plans: pre-handlers copy into the node input how many body/post-handler updates the state has seen (must equal the count at the start of the superstep)",
+		Rule: "each run draws a stateful plan (all modes; value and stream pre/post handlers; node bodies calling ProcessState, also from stateless nested graphs; stateful nested graphs), every state access does read-yield-write inside the framework's lock and passes a mutual-exclusion monitor; two calls on the same compiled object; oracle: monitor never sees two tasks inside, final counter = number of invocations, one fresh state per run and per stateful nested execution, pre < node < post, values equal the reference model; Pregel plans: pre-handlers copy into the node input how many body/post-handler updates the state has seen (must equal the count at the start of the superstep); 1 plan in 5 builds two lambda nodes from one Lambda value (own handlers each)",
 		Real: graphReal, Stub: graphStub,
 		Faults: []string{"handlers and ProcessState bodies yielding inside the lock", "parallel nodes", "schedule perturbation"},
 	})
